@@ -17,13 +17,17 @@ LEVEL = "proof"
 MANIFEST = dict(
     category="proof",
     text="Lean 4 theorems (XmpProps.C17) over a function-by-function model of control.c's position calls and the pre-read_row part of "
-         "xmp_play_frame (next_order, next_row, update_from_ord_info, reset_flow, check_end_of_module): for ALL modules descriptions and ALL "
-         "prior flow states, xmp_set_position(p) of an order that belongs to a sequence and holds a pattern makes the next frame row 0 / tick 0 of "
-         "order p in that sequence with speed/bpm/volume/time of xxo_info[p] and a clean flow state; out-of-range positions and rows are refused "
-         "with the state unchanged; next/prev move one order (skipping 0xfe markers, loop proved terminating) and do nothing at the list end / "
-         "restart the entry; xmp_seek_time selects the greatest candidate order; restart/stop. Clauses that the real code violates are proved as "
-         "counterexamples on concrete witnesses which the harness replays on the real library. Model tied to the C on every run by a differential "
-         "correspondence on the full sequencer state, plus a direct oracle on xmp_frame_info.",
+         "xmp_play_frame (next_order, next_row, update_from_ord_info, reset_flow, check_end_of_module): for ALL module descriptions and ALL "
+         "prior flow states (pending break/jump/pattern delay/row delay/pattern loop/reposition), xmp_set_position(p) of an order that belongs to a "
+         "sequence and holds a pattern makes the next frame row 0 / tick 0 of order p in that sequence with speed/bpm/volume/time of xxo_info[p] and "
+         "a clean flow state (C17_set_position_partial: except when p is the non-zero order being played, and the value reported for p = 0 is -1 - "
+         "both proved as counterexamples and listed as known findings); out-of-range positions/rows are refused with the state unchanged; "
+         "xmp_set_row lands on tick 0 of the row; next/prev move to the neighbouring order of the sequence (skip markers and pattern-less orders "
+         "passed over, loops proved terminating), stay put at the list end / sequence end / foreign orders and restart the entry order; "
+         "xmp_seek_time selects the greatest candidate order; restart re-enters the first pattern of the sequence with loop count 0; stop ends. "
+         "Model tied to the C on every run by a differential correspondence on the full sequencer state (return value, post-call state, state right "
+         "after the reposition block, kernel fields and xmp_frame_info after the frame), a direct oracle on xmp_frame_info over corpus and "
+         "generated modules, and the Lean witnesses replayed on the real library.",
     note="Trusted: Lean kernel, the hand-written model XmpModel/Control.lean, harness and differ. The module tables (sequence_control, entry points, "
          "scan[].ord/row/num, xxo_info) are data dumped from the real scan, not derived (scan.c's scan_module is not modelled; C18 relates xxo_info "
          "times to playback). Not modelled: per-channel pattern-loop array, QUIRK_PERPAT reset, libxmp_virt_reset/reset_channels (voices), everything "
